@@ -19,7 +19,7 @@ vget [rm=<mask>]                           -> <msg>|nil
 write opts: wt=<n> um=<mask|nil> mum=<mask> rs=<mask|nil> ev=<msg|nil> xa chk=<name> am am0 bf=<name>
             af=<name> nw mw=<mask> cia ccb gid icb      — applied IN THE ORDER GIVEN, repeats allowed
 read opts:  rm=<mask|nil> inc=<name|nil> uo uo0 bp bp0   — likewise
-mask: 0 (no paths) or paths a,s,c,f,r,x,fc,fd separated by commas;   msg: <a>/<s>/<c|->[/<f: -|c:d>/<r: -|n.n.n>]
+mask: 0 (no paths) or paths a,s,c,f,r,x,fc,fd,fx separated by commas;   msg: <a>/<s>/<c|->[/<f: -|c:d>/<r: -|n.n.n>]
 ```
 -/
 namespace ScVerif.C01
@@ -39,7 +39,7 @@ def kvHas (kv : KV) (k : String) : Bool := (kvGet kv k).isSome
 
 def parseField? : String → Option Field
   | "a" => some .a | "s" => some .s | "c" => some .c | "f" => some .f | "r" => some .r
-  | "x" => some .x | "fc" => some .fc | "fd" => some .fd | _ => none
+  | "x" => some .x | "fc" => some .fc | "fd" => some .fd | "fx" => some .fx | _ => none
 
 def parseMask? (s : String) : Option Mask :=
   if s = "0" then some [] else (s.splitOn ",").mapM parseField?
@@ -109,7 +109,7 @@ def parseWOpt? : String × String → Option (List (WOpt Msg Mask))
 def parseWriteOpts? (kv : KV) : Option (List (WOpt Msg Mask)) := (kv.mapM parseWOpt?).map List.flatten
 
 def parseWriteReq? (kv : KV) : Option (WriteReq Msg Mask) :=
-  (parseWriteOpts? kv).map (computeWriteConfig flatOps)
+  (parseWriteOpts? kv).map (computeWriteConfig flatOps (· ++ ·))
 
 def parseROpt? : String × String → Option (List (ROpt Msg Mask))
   | ("id", _) => some []
@@ -219,18 +219,18 @@ def handleOpt (st : DrvState) (toks : List String) : Option (DrvState × String)
       let id ← kvGet kv "id"
       let msg ← (kvGet kv "msg").bind parseMsg?
       let opts ← parseWriteOpts? kv
-      let (o, s') := Coll.updateO cfg s id msg opts
+      let (o, s') := Coll.updateO (· ++ ·) cfg s id msg opts
       pure (.coll cfg s', showCOut o ++ " | " ++ showCState s')
     | "add", .coll cfg s =>
       let id ← kvGet kv "id"
       let msg ← (kvGet kv "msg").bind parseMsg?
       let opts ← parseWriteOpts? kv
-      let (o, s') := Coll.addO cfg s id msg opts
+      let (o, s') := Coll.addO (· ++ ·) cfg s id msg opts
       pure (.coll cfg s', showCOut o ++ " | " ++ showCState s')
     | "del", .coll cfg s =>
       let id ← kvGet kv "id"
       let opts ← parseWriteOpts? kv
-      let (o, s') := Coll.deleteO cfg s id opts
+      let (o, s') := Coll.deleteO (· ++ ·) cfg s id opts
       pure (.coll cfg s', showCOut o ++ " | " ++ showCState s')
     | "get", .coll cfg s =>
       let id ← kvGet kv "id"
@@ -242,7 +242,7 @@ def handleOpt (st : DrvState) (toks : List String) : Option (DrvState × String)
     | "vset", .val cfg s =>
       let msg ← (kvGet kv "msg").bind parseMsg?
       let opts ← parseWriteOpts? kv
-      let (o, s') := Value.setO cfg s msg opts
+      let (o, s') := Value.setO (· ++ ·) cfg s msg opts
       pure (.val cfg s', showVOut o ++ " | " ++ showVState s')
     | "vget", .val cfg s =>
       let opts ← parseReadOpts? kv
